@@ -191,7 +191,7 @@ fn gen_coord(rng: &mut Rng) -> f64 {
     let base = match rng.below(10) {
         0 => 0,
         1 => rng.range(-300, -1),
-        2 => *rng.pick(&[-1000i64, 1000, 2000, 32000, -32000]),
+        2 => *rng.pick(&[-1000i64, 1000, 2000, 5000, -5000]),
         _ => rng.range(0, 900),
     } as f64;
     match rng.below(12) {
@@ -429,8 +429,8 @@ fn gen_case(rng: &mut Rng, k: usize) -> Case {
         "e2e-categories" | "e2e-variable-categories" => {
             let v: Vec<(String, Option<Cls>)> = glyphs.iter().map(|g| (g.name.clone(), Some(role(g)))).collect();
             match rng.below(4) {
-                0 => CatMode::DsLib(v),
-                1 => CatMode::Fea(v.into_iter().map(|(n, c)| (n, c.unwrap())).collect()),
+                0 if variable => CatMode::DsLib(v),
+                1 => CatMode::Fea(v.into_iter().filter(|(n, _)| glyphs.iter().any(|g| g.name == *n && g.export)).map(|(n, c)| (n, c.unwrap())).collect()),
                 _ => CatMode::Lib(v),
             }
         }
@@ -449,12 +449,109 @@ fn gen_case(rng: &mut Rng, k: usize) -> Case {
             if rng.chance(1, 10) {
                 v = v.into_iter().map(|(n, _)| (n, Some(Cls::Comp))).collect(); // only components
             }
-            if rng.chance(1, 3) { CatMode::Fea(v.into_iter().filter_map(|(n, c)| c.map(|c| (n, c))).collect()) } else { CatMode::Lib(v) }
+            if rng.chance(1, 3) {
+                CatMode::Fea(v.into_iter().filter(|(n, _)| glyphs.iter().any(|g| g.name == *n && g.export)).filter_map(|(n, c)| c.map(|c| (n, c))).collect())
+            } else {
+                CatMode::Lib(v)
+            }
         }
         "e2e-indic" if rng.chance(1, 2) => CatMode::Lib(glyphs.iter().map(|g| (g.name.clone(), Some(role(g)))).collect()),
         _ => CatMode::None,
     };
     Case { family: format!("C10F{k}"), axes, masters, glyphs, cats, propagate: kind == "e2e-propagate", langsys: rng.chance(1, 4), kind }
+}
+
+/// fixed sources, run first on every run: a plain variable family, and the minimal inputs of the findings
+fn corpus() -> Vec<Case> {
+    let one = |x: f64, y: f64| vec![Some((x, y))];
+    let g = |name: &str, uni: u32, anchors: Vec<(&str, Vec<Option<(f64, f64)>>)>| GSrc {
+        name: name.into(),
+        uni: if uni == 0 { None } else { Some(uni) },
+        anchors: anchors.into_iter().map(|(n, pos)| ASrc { name: n.into(), pos }).collect(),
+        comps: vec![],
+        export: true,
+    };
+    let static_masters = vec![(Vec::new(), Vec::new())];
+    let mut out = Vec::new();
+    // 1. two masters, every lookup type, anchors that move, a .5 tie
+    let two = |a: (f64, f64), b: (f64, f64)| vec![Some(a), Some(b)];
+    out.push(Case {
+        family: "C10Corpus1".into(),
+        axes: vec![AxisSrc { name: "Weight".into(), tag: "wght".into(), min: 0.0, default: 0.0, max: 1000.0, ..Default::default() }],
+        masters: vec![(vec![("Weight".into(), 0.0)], vec![0.0]), (vec![("Weight".into(), 1000.0)], vec![1.0])],
+        glyphs: vec![
+            g("A", 0x41, vec![("top", two((300.0, 700.0), (160.5, 700.5))), ("bottom", two((300.0, -10.0), (300.0, -10.0)))]),
+            g("acutecomb", 0x301, vec![("_top", two((100.0, 500.0), (120.0, 510.0))), ("top", two((100.0, 650.0), (120.0, 680.0)))]),
+            g("dotbelowcomb", 0x323, vec![("_bottom", two((90.0, -2.5), (90.0, -2.5)))]),
+            g("f_i", 0xFB01, vec![("top_1", two((150.0, 700.0), (160.0, 700.0))), ("top_2", two((450.0, 700.0), (470.0, 700.0)))]),
+        ],
+        cats: CatMode::None,
+        propagate: false,
+        langsys: false,
+        kind: "corpus-plain",
+    });
+    // 2. no categories; a mark glyph that also carries a ligature anchor of a used group
+    out.push(Case {
+        family: "C10Corpus2".into(),
+        axes: vec![],
+        masters: static_masters.clone(),
+        glyphs: vec![
+            g("A", 0x41, vec![("top", one(300.0, 700.0))]),
+            g("acutecomb", 0x301, vec![("_top", one(100.0, 500.0)), ("bottom_1", one(100.0, 0.0))]),
+            g("dotbelowcomb", 0x323, vec![("_bottom", one(90.0, -10.0))]),
+        ],
+        cats: CatMode::None,
+        propagate: false,
+        langsys: false,
+        kind: "corpus-mark-with-ligature-anchor",
+    });
+    // 3. categories; a mark-class glyph whose only anchor is a base anchor
+    out.push(Case {
+        family: "C10Corpus3".into(),
+        axes: vec![],
+        masters: static_masters.clone(),
+        glyphs: vec![
+            g("A", 0x41, vec![("top", one(300.0, 700.0))]),
+            g("tildecomb", 0x303, vec![("top", one(110.0, 640.0))]),
+            g("acutecomb", 0x301, vec![("_top", one(100.0, 500.0))]),
+        ],
+        cats: CatMode::Lib(vec![("A".into(), Some(Cls::Base)), ("tildecomb".into(), Some(Cls::Mark)), ("acutecomb".into(), Some(Cls::Mark))]),
+        propagate: false,
+        langsys: false,
+        kind: "corpus-mark-class-glyph-without-mark-anchor",
+    });
+    // 5. a glyph of a non-abvm script that is a mark by its anchors and carries a base anchor, and a
+    //    Devanagari-only mark with the matching `_` anchor: the mkmk lookup's filtering set drops the latter
+    out.push(Case {
+        family: "C10Corpus5".into(),
+        axes: vec![],
+        masters: static_masters.clone(),
+        glyphs: vec![
+            g("ka-deva", 0x915, vec![("top", one(300.0, 700.0))]),
+            g("A", 0x41, vec![("top", one(310.0, 720.0)), ("_top", one(100.0, 0.0))]),
+            g("anusvara-deva", 0x902, vec![("_top", one(80.0, 480.0))]),
+        ],
+        cats: CatMode::None,
+        propagate: false,
+        langsys: false,
+        kind: "e2e-indic",
+    });
+    // 4. a Latin mark that can carry marks, and a Devanagari mark that wants to sit on it
+    out.push(Case {
+        family: "C10Corpus4".into(),
+        axes: vec![],
+        masters: static_masters,
+        glyphs: vec![
+            g("ka-deva", 0x915, vec![("top", one(300.0, 700.0))]),
+            g("acutecomb", 0x301, vec![("_top", one(100.0, 500.0)), ("top", one(100.0, 650.0))]),
+            g("anusvara-deva", 0x902, vec![("_top", one(80.0, 480.0))]),
+        ],
+        cats: CatMode::None,
+        propagate: false,
+        langsys: false,
+        kind: "e2e-indic",
+    });
+    out
 }
 
 fn cats_plist(v: &[(String, Option<Cls>)]) -> String {
@@ -473,9 +570,12 @@ fn build_design(c: &Case) -> Design {
         fea.push_str("languagesystem DFLT dflt;\nlanguagesystem latn dflt;\n");
     }
     if let CatMode::Fea(v) = &c.cats {
-        let cl = |k: Cls| v.iter().filter(|(_, c)| *c == k).map(|(n, _)| n.as_str()).collect::<Vec<_>>().join(" ");
+        let cl = |k: Cls| {
+            let m = v.iter().filter(|(_, c)| *c == k).map(|(n, _)| n.as_str()).collect::<Vec<_>>().join(" ");
+            if m.is_empty() { m } else { format!("[{m}]") }
+        };
         fea.push_str(&format!(
-            "table GDEF {{\n  GlyphClassDef [{}], [{}], [{}], [{}];\n}} GDEF;\n",
+            "table GDEF {{\n  GlyphClassDef {}, {}, {}, {};\n}} GDEF;\n",
             cl(Cls::Base), cl(Cls::Lig), cl(Cls::Mark), cl(Cls::Comp)
         ));
     }
@@ -538,6 +638,8 @@ struct Ir {
     /// every glyph with an anchors file, exported or not
     anchors: Vec<(String, Vec<IrAnchor>)>,
     cats: Vec<(String, Cls)>,
+    prelim: Vec<(String, Cls)>,
+    infer_from_anchors: bool,
 }
 
 fn read_ir(dir: &std::path::Path, c: &Case) -> Result<Ir, String> {
@@ -546,6 +648,7 @@ fn read_ir(dir: &std::path::Path, c: &Case) -> Result<Ir, String> {
     }
     let order: fontir::ir::GlyphOrder = load(&FePaths::target_file(dir, &FeWorkId::GlyphOrder))?;
     let gc: fontir::ir::GdefCategories = load(&FePaths::target_file(dir, &FeWorkId::GdefCategories))?;
+    let pc: fontir::ir::PreliminaryGdefCategories = load(&FePaths::target_file(dir, &FeWorkId::PreliminaryGdefCategories))?;
     let sm: fontir::ir::StaticMetadata = load(&FePaths::target_file(dir, &FeWorkId::StaticMetadata))?;
     let tags: Vec<_> = sm.axes.iter().map(|a| a.tag).collect();
     let mut anchors = Vec::new();
@@ -572,17 +675,18 @@ fn read_ir(dir: &std::path::Path, c: &Case) -> Result<Ir, String> {
             }
             v.push(IrAnchor { name: a.original_name.to_string(), pos });
         }
+        // the order of a composite's propagated anchors in the IR depends on a HashMap's iteration order
+        // (propagate_anchors.rs build_variable_anchors) when an anchor is missing at some location; nothing
+        // modelled here depends on the order of anchors of different names, so give them a fixed one
+        let src = c.glyphs.iter().find(|g| g.name == *n);
+        v.sort_by_key(|a| (src.and_then(|g| g.anchors.iter().position(|x| x.name == a.name)).unwrap_or(usize::MAX), a.name.clone()));
         anchors.push((n.clone(), v));
     }
-    let cats = gc
-        .categories
-        .iter()
-        .map(|(n, c)| {
-            use write_fonts::tables::gdef::GlyphClassDef as G;
-            (n.to_string(), match c { G::Base => Cls::Base, G::Ligature => Cls::Lig, G::Mark => Cls::Mark, _ => Cls::Comp })
-        })
-        .collect();
-    Ok(Ir { order: order.names().map(|n| n.to_string()).collect(), anchors, cats })
+    use write_fonts::tables::gdef::GlyphClassDef as G;
+    let conv = |c: &G| match c { G::Base => Cls::Base, G::Ligature => Cls::Lig, G::Mark => Cls::Mark, _ => Cls::Comp };
+    let cats = gc.categories.iter().map(|(n, c)| (n.to_string(), conv(c))).collect();
+    let prelim = pc.categories.iter().map(|(n, c)| (n.to_string(), conv(c))).collect();
+    Ok(Ir { order: order.names().map(|n| n.to_string()).collect(), anchors, cats, prelim, infer_from_anchors: pc.infer_from_anchors })
 }
 
 // ---- decoded font -----------------------------------------------------------------------------------
@@ -881,6 +985,11 @@ fn spec_kind(name: &str) -> Kind {
     Kind::Base(name.to_string())
 }
 
+/// Some(true): AnchorKind::Mark by the real classification
+fn spec_kind_fontc(name: &str) -> Option<bool> {
+    AnchorKind::new(name).ok().map(|k| matches!(k, AnchorKind::Mark(_)))
+}
+
 struct Spec {
     /// gid -> class, empty = the source classifies nothing
     classes: BTreeMap<u16, Cls>,
@@ -931,7 +1040,8 @@ impl Spec {
         self.included(gid) && !self.marks.contains(&gid) && (self.classes.is_empty() || self.classes.get(&gid) == Some(&Cls::Base))
     }
     fn is_lig(&self, gid: u16) -> bool {
-        self.included(gid) && (self.classes.is_empty() || self.classes.get(&gid) == Some(&Cls::Lig))
+        // a mark glyph that carries a numbered anchor is not a ligature glyph
+        self.included(gid) && !self.marks.contains(&gid) && (self.classes.is_empty() || self.classes.get(&gid) == Some(&Cls::Lig))
     }
 }
 
@@ -954,6 +1064,8 @@ fn wants(s: &Spec) -> Vec<Want> {
             let (ty, comp, g) = match bk {
                 Kind::Base(g) if s.is_base(*b) => (4, 0, g),
                 Kind::Base(g) if s.marks.contains(b) => (6, 0, g),
+                // a glyph the source classifies as a mark, without a (matched) `_` anchor of its own
+                Kind::Base(g) if s.included(*b) && s.classes.get(b) == Some(&Cls::Mark) => (7, 0, g),
                 Kind::Lig(g, i) if s.is_lig(*b) => (5, *i, g),
                 _ => continue,
             };
@@ -1023,11 +1135,13 @@ fn case_json(c: &Case) -> Value {
 struct CaseOut {
     violations: Vec<(String, String)>,
     coq: Option<(String, bool, Value)>,
+    /// the category recomputation of this source: (term, non-trivial)
+    coq_gdef: Option<(String, bool)>,
     stats: BTreeMap<String, u64>,
 }
 
 fn run_case(c: &Case) -> CaseOut {
-    let mut out = CaseOut { violations: vec![], coq: None, stats: BTreeMap::new() };
+    let mut out = CaseOut { violations: vec![], coq: None, coq_gdef: None, stats: BTreeMap::new() };
     let mut bad = |out: &mut CaseOut, key: &str, msg: String| {
         if !out.violations.iter().any(|(k, _)| k == key) {
             out.violations.push((key.to_string(), msg));
@@ -1035,7 +1149,7 @@ fn run_case(c: &Case) -> CaseOut {
     };
     let dir = scratch_dir("c10");
     let design = build_design(c);
-    let path = design.write_designspace(dir.path());
+    let path = if c.axes.is_empty() { design.write(dir.path()) } else { design.write_designspace(dir.path()) };
     let ir_dir = dir.path().join("ir");
     std::fs::create_dir_all(&ir_dir).unwrap();
     let mut flags = Flags::default();
@@ -1085,9 +1199,33 @@ fn run_case(c: &Case) -> CaseOut {
     }
     let gid_of = |n: &str| ir.order.iter().position(|x| x == n).map(|i| i as u16);
 
+    // (0) the category recomputation after propagation: one row per glyph (preliminary category, has an
+    //     anchor that is not a mark anchor, final category); marks must stay marks
+    {
+        let mut rows = Vec::new();
+        for g in &c.glyphs {
+            let prelim = ir.prelim.iter().find(|(n, _)| *n == g.name).map(|(_, c)| *c);
+            let fin = ir.cats.iter().find(|(n, _)| *n == g.name).map(|(_, c)| *c);
+            let has = ir.anchors.iter().find(|(n, _)| *n == g.name).map(|(_, a)| a.iter().any(|a| !matches!(spec_kind_fontc(&a.name), Some(true)))).unwrap_or(false);
+            if prelim == Some(Cls::Mark) && fin != Some(Cls::Mark) {
+                bad(&mut out, "gdef-source-mark-lost-in-recomputation", format!("glyph {} is a mark before anchor propagation and {:?} after", g.name, fin));
+            }
+            if prelim != Some(Cls::Mark) && fin == Some(Cls::Mark) {
+                bad(&mut out, "gdef-mark-invented-in-recomputation", format!("glyph {} is {:?} before anchor propagation and a mark after", g.name, prelim));
+            }
+            rows.push((prelim, has, fin));
+        }
+        let oc = |c: &Option<Cls>| coq_opt(c, |c| c.coq().to_string());
+        let term = format!("gdef_table_ok {} {}", coq_bool(ir.infer_from_anchors), coq_list(&rows, |(p, h, f)| format!("(({}, {}), {})", oc(p), coq_bool(*h), oc(f))));
+        out.coq_gdef = Some((term, rows.iter().any(|(p, _, f)| p.is_some() || f.is_some())));
+    }
+
     // (1) the IR anchors are the source's anchors (no propagation: exactly; with propagation: glyphs
     //     without components exactly, simple two-component composites by the translation rule)
     for g in &c.glyphs {
+        if !g.export {
+            continue; // not in the font: no claim (its anchors need not reach the IR)
+        }
         let irg = ir.anchors.iter().find(|(n, _)| *n == g.name).map(|(_, a)| a.clone()).unwrap_or_default();
         let mut want: Vec<IrAnchor> = Vec::new();
         let own = |g: &GSrc| -> Vec<IrAnchor> {
@@ -1188,33 +1326,46 @@ fn run_case(c: &Case) -> CaseOut {
 
     // (3) every demanded attachment is in the font, with the rounded source coordinates
     let is_indic = c.kind == "e2e-indic";
-    if font.scripts.is_empty() && !wants.is_empty() {
+    if font.scripts.is_empty() && wants.iter().any(|w| w.ty != 7) {
         bad(&mut out, "mark-feature-missing", "the source demands mark attachments but GPOS has no script".into());
     }
     let mut inexact = 0u64;
     let mut evals = 0u64;
-    for (script, feats) in &font.scripts {
+    let no_feats: BTreeMap<String, Vec<OLookup>> = BTreeMap::new();
+    let none_script = [("(no script)".to_string(), no_feats)];
+    let scripts_to_check: &[(String, BTreeMap<String, Vec<OLookup>>)] = if font.scripts.is_empty() { &none_script } else { &font.scripts };
+    for (script, feats) in scripts_to_check {
         for w in &wants {
-            let tags: Vec<&str> = match (w.ty, is_indic) {
-                (6, false) => vec!["mkmk"],
-                (_, false) => vec!["mark"],
-                (6, true) => vec!["mkmk", "abvm", "blwm"],
-                (_, true) => vec!["mark", "abvm", "blwm"],
-            };
-            let kindname = match w.ty { 4 => "base", 5 => "ligature", _ => "mark" };
+            let kindname = match w.ty { 4 => "base", 5 => "ligature", 7 => "mark-without-mark-anchor", _ => "mark" };
+            let w = &Want { ty: if w.ty == 7 { 6 } else { w.ty }, ..w.clone() };
+            // glyphs of scripts that use abvm / blwm are attached there instead of mark / mkmk
+            let tags: Vec<&str> = if w.ty == 6 { vec!["mkmk", "abvm", "blwm"] } else { vec!["mark", "abvm", "blwm"] };
             let ctx = format!("script {script}: {} glyph {} anchor {}{} and mark glyph {} anchor _{}",
                 kindname, ir.order[w.base as usize], w.group, if w.comp > 0 { format!("_{}", w.comp) } else { String::new() }, ir.order[w.mark as usize], w.group);
             let mut cands: Vec<&OLookup> = Vec::new();
             for t in &tags {
                 for l in feats.get(*t).map(|v| v.as_slice()).unwrap_or(&[]) {
-                    if l.ty == w.ty && l.marks.iter().any(|(g, _)| *g == w.mark) && lookup_base_anchor(l, w.base, w.comp).is_some() {
+                    let alive = l.filter.as_ref().map(|f| f.contains(&w.mark) && f.contains(&w.base)).unwrap_or(true);
+                    if alive && l.ty == w.ty && l.marks.iter().any(|(g, _)| *g == w.mark) && lookup_base_anchor(l, w.base, w.comp).is_some() {
                         cands.push(l);
                     }
                 }
             }
             evals += 1;
             if cands.is_empty() {
-                bad(&mut out, &format!("mark-{kindname}-pair-not-covered"), format!("{ctx}: no lookup of type {} in {:?} covers the pair", w.ty, tags));
+                // is there a lookup that lists the pair but whose mark filtering set drops one of the two glyphs?
+                let dead = tags.iter().flat_map(|t| feats.get(*t).map(|v| v.as_slice()).unwrap_or(&[]).iter()).find(|l| {
+                    l.ty == w.ty && l.marks.iter().any(|(g, _)| *g == w.mark) && lookup_base_anchor(l, w.base, w.comp).is_some()
+                });
+                if let Some(l) = dead {
+                    bad(&mut out, "mkmk-filter-set-excludes-a-glyph-the-lookup-attaches", format!(
+                        "{ctx}: lookup {} lists both glyphs, but its mark filtering set {:?} leaves out {} (a shaper skips that glyph, so the pair is never attached) and no other lookup covers the pair",
+                        l.index, l.filter.as_ref().map(|f| f.iter().map(|g| ir.order[*g as usize].clone()).collect::<Vec<_>>()),
+                        if l.filter.as_ref().map(|f| f.contains(&w.mark)).unwrap_or(true) { ir.order[w.base as usize].clone() } else { ir.order[w.mark as usize].clone() }));
+                    continue;
+                }
+                let key = if kindname == "mark-without-mark-anchor" { "mark-class-glyph-without-mark-anchor-not-attachable".to_string() } else { format!("mark-{kindname}-pair-not-covered") };
+                bad(&mut out, &key, format!("{ctx}: no lookup of type {} in {:?} covers the pair", w.ty, tags));
                 continue;
             }
             // the pair may be covered by the lookups of several shared anchor names: one of them must carry this name's anchors
@@ -1252,7 +1403,7 @@ fn run_case(c: &Case) -> CaseOut {
                         };
                         for (comp, ba) in comps {
                             let justified = wants.iter().any(|w| {
-                                w.ty == l.ty && w.base == *b && w.mark == *m && w.comp == comp
+                                (w.ty == l.ty || (w.ty == 7 && l.ty == 6)) && w.base == *b && w.mark == *m && w.comp == comp
                                     && anchor_matches(ba, &w.base_anchor, &masters).is_ok() && anchor_matches(ma, &w.mark_anchor, &masters).is_ok()
                             });
                             if !justified {
@@ -1260,15 +1411,6 @@ fn run_case(c: &Case) -> CaseOut {
                                     "script {script} feature {tag} lookup {} (type {}): attaches glyph {} to glyph {}{} with anchors {:?} / {:?}, which no shared anchor name of the source demands",
                                     l.index, l.ty, ir.order[*m as usize], ir.order[*b as usize], if comp > 0 { format!(" component {comp}") } else { String::new() }, (ma.x, ma.y), (ba.x, ba.y)));
                             }
-                        }
-                    }
-                }
-                // (5) a mark filtering set must keep every glyph the lookup positions
-                if let Some(f) = &l.filter {
-                    for g in l.marks.iter().map(|(g, _)| g).chain(l.bases.iter().map(|(g, _)| g)) {
-                        let is_gdef_mark = font.gdef_classes.as_ref().map(|c| c.get(g) == Some(&3)).unwrap_or(false);
-                        if is_gdef_mark && !f.contains(g) {
-                            bad(&mut out, "mkmk-filter-set-excludes-participant", format!("lookup {}: mark glyph {} takes part but is not in the lookup's mark filtering set", l.index, ir.order[*g as usize]));
                         }
                     }
                 }
@@ -1364,10 +1506,94 @@ fn coq_case(c: &Case, ir: &Ir, classes: &BTreeMap<u16, Cls>, masters: &[Vec<f64>
     )
 }
 
+/// `--order-probe N`: compile two fixed sources N times in process with anchor propagation on and report how
+/// many distinct fonts / IR anchor files come out (the order of a composite's propagated anchors in the IR
+/// depends on a HashMap's iteration order when an anchor is missing at some location).
+fn order_probe(n: usize) {
+    // SAFETY: single-threaded at this point; keeps head.created / modified out of the comparison
+    unsafe { std::env::set_var("SOURCE_DATE_EPOCH", "0") };
+    let two = |a: Option<(f64, f64)>, b: Option<(f64, f64)>| vec![a, b];
+    let g = |name: &str, uni: u32, anchors: Vec<(&str, Vec<Option<(f64, f64)>>)>, comps: Vec<(&str, (f64, f64))>| GSrc {
+        name: name.into(),
+        uni: if uni == 0 { None } else { Some(uni) },
+        anchors: anchors.into_iter().map(|(n, pos)| ASrc { name: n.into(), pos }).collect(),
+        comps: comps.into_iter().map(|(b, o)| (b.to_string(), vec![o, o])).collect(),
+        export: true,
+    };
+    let axes = vec![AxisSrc { name: "Weight".into(), tag: "wght".into(), min: 0.0, default: 0.0, max: 1000.0, ..Default::default() }];
+    let masters = vec![(vec![("Weight".to_string(), 0.0)], vec![0.0]), (vec![("Weight".to_string(), 1000.0)], vec![1.0])];
+    let sources = vec![
+        // a composite whose first component's first anchor is missing in the second master
+        ("composite", "Aacute", Case {
+            family: "C10Order1".into(), axes: axes.clone(), masters: masters.clone(),
+            glyphs: vec![
+                g("A", 0x41, vec![("bottom", two(Some((300.0, 0.0)), None)), ("top", two(Some((300.0, 700.0)), Some((310.0, 710.0))))], vec![]),
+                g("acutecomb", 0x301, vec![("_top", two(Some((100.0, 500.0)), Some((100.0, 500.0))))], vec![]),
+                g("Aacute", 0xC1, vec![], vec![("A", (0.0, 0.0)), ("acutecomb", (200.0, 200.0))]),
+            ],
+            cats: CatMode::None, propagate: true, langsys: false, kind: "order-probe",
+        }),
+        // a composite ligature with two carets of its own, the first missing in the second master
+        ("ligature-carets", "f_i", Case {
+            family: "C10Order2".into(), axes, masters,
+            glyphs: vec![
+                g("f", 0x66, vec![("top", two(Some((150.0, 700.0)), Some((150.0, 700.0))))], vec![]),
+                g("i", 0x69, vec![("top", two(Some((100.0, 700.0)), Some((100.0, 700.0))))], vec![]),
+                g("acutecomb", 0x301, vec![("_top", two(Some((100.0, 500.0)), Some((100.0, 500.0))))], vec![]),
+                g("f_i", 0xFB01, vec![("caret_1", two(Some((300.0, 0.0)), None)), ("caret_2", two(Some((450.0, 0.0)), Some((460.0, 0.0))))],
+                  vec![("f", (0.0, 0.0)), ("i", (300.0, 0.0))]),
+            ],
+            cats: CatMode::None, propagate: true, langsys: false, kind: "order-probe",
+        }),
+    ];
+    for (label, glyph, c) in &sources {
+        let mut fonts: BTreeMap<u64, usize> = BTreeMap::new();
+        let mut irs: BTreeMap<String, usize> = BTreeMap::new();
+        let mut tables: BTreeMap<String, BTreeSet<u64>> = BTreeMap::new();
+        for _ in 0..n {
+            let dir = scratch_dir("c10o");
+            let path = build_design(c).write_designspace(dir.path());
+            let ir_dir = dir.path().join("ir");
+            std::fs::create_dir_all(&ir_dir).unwrap();
+            let bytes = match compile_path(&path, Some(Flags::default() | Flags::PROPAGATE_ANCHORS), Some(ir_dir.clone())) {
+                Outcome::Font(b) => b,
+                other => {
+                    eprintln!("{label}: {other:?}");
+                    continue;
+                }
+            };
+            let h = |b: &[u8]| b.iter().fold(0xcbf29ce484222325u64, |h, x| (h ^ *x as u64).wrapping_mul(0x100000001b3));
+            *fonts.entry(h(&bytes)).or_default() += 1;
+            if let Ok(f) = FontRef::new(&bytes) {
+                for rec in f.table_directory.table_records() {
+                    if let Some(d) = f.table_data(rec.tag()) {
+                        tables.entry(rec.tag().to_string()).or_default().insert(h(d.as_bytes()));
+                    }
+                }
+            }
+            let f = FePaths::target_file(&ir_dir, &FeWorkId::Anchor(GlyphName::new(glyph)));
+            let names: Vec<String> = std::fs::read_to_string(&f).unwrap_or_default().lines().filter(|l| l.contains("original_name")).map(|l| l.trim().to_string()).collect();
+            *irs.entry(names.join(" ")).or_default() += 1;
+            // whole-file view: the composite's anchor file and a simple glyph's anchor file
+            for gname in [glyph.to_string(), c.glyphs[0].name.clone()] {
+                let f = FePaths::target_file(&ir_dir, &FeWorkId::Anchor(GlyphName::new(&gname)));
+                tables.entry(format!("ir-anchor-file:{gname}")).or_default().insert(h(&std::fs::read(&f).unwrap_or_default()));
+            }
+        }
+        let varying: Vec<&String> = tables.iter().filter(|(_, v)| v.len() > 1).map(|(k, _)| k).collect();
+        println!("{}", json!({"probe": label, "builds": n, "distinct_fonts": fonts.len(), "tables_that_vary": varying,
+            "ir_anchor_orders": irs.iter().map(|(k, v)| json!({"order": k, "builds": v})).collect::<Vec<_>>()}));
+    }
+}
+
 fn main() {
     quiet_panics();
     let args: Vec<String> = std::env::args().collect();
     let args = &args[1..];
+    if args.iter().any(|a| a == "--order-probe") {
+        order_probe(arg_val(args, "--order-probe", 12) as usize);
+        return;
+    }
     let seed = arg_val(args, "--seed", 1);
     let n_names = arg_val(args, "--names", 400) as usize;
     let n = arg_val(args, "--n", 100) as usize;
@@ -1377,7 +1603,10 @@ fn main() {
     let mut stats: BTreeMap<String, u64> = BTreeMap::new();
     run_names(&mut rng, &mut id, n_names, &mut stats);
 
-    let cases: Vec<Case> = (0..n).map(|k| gen_case(&mut rng, k)).collect();
+    let mut cases: Vec<Case> = corpus();
+    let ncorpus = cases.len();
+    cases.extend((0..n).map(|k| gen_case(&mut rng, k)));
+    let _ = ncorpus;
     let nthreads = std::thread::available_parallelism().map(|n| n.get()).unwrap_or(4).min(8);
     let results: Vec<Option<CaseOut>> = {
         let next = std::sync::atomic::AtomicUsize::new(0);
@@ -1395,7 +1624,7 @@ fn main() {
                     let r = std::panic::catch_unwind(|| run_case(&cases[k]));
                     *slots[k].lock().unwrap() = Some(match r {
                         Ok(o) => o,
-                        Err(_) => CaseOut { violations: vec![("harness-panic".into(), "the harness panicked on this case".into())], coq: None, stats: BTreeMap::new() },
+                        Err(_) => CaseOut { violations: vec![("harness-panic".into(), "the harness panicked on this case".into())], coq: None, coq_gdef: None, stats: BTreeMap::new() },
                     });
                 });
             }
@@ -1411,6 +1640,10 @@ fn main() {
         }
         for (s, v) in &r.stats {
             *stats.entry(s.clone()).or_default() += v;
+        }
+        if let Some((coq, nontrivial)) = r.coq_gdef {
+            emit_case(id, "gdef-table", coq.clone(), None, nontrivial, format!("g:{coq}"), json!({"case": k, "source": c.kind}));
+            id += 1;
         }
         if let Some((coq, nontrivial, extra)) = r.coq {
             let mut e = extra;
